@@ -190,7 +190,7 @@ Definition tnet0 (cli srv : conn) (t0 : Z) : tnet :=
    flight" (consecutive keep-alives are more than kmax apart, so at most d / (kmax + 1) + 1 of them
    are emitted within d) *)
 Definition params_ok (P : tparams) (cli srv : conn) : Prop :=
-  0 <= tp_d P /\ 0 <= kmax cli /\ 0 <= kmax srv
+  0 <= tp_d P /\ 0 <= tp_tau P /\ 0 <= kmax cli /\ 0 <= kmax srv
   /\ kmax cli + tp_tau P + tp_d P < tp_T P          (* server: removed when now - last_recv >= T *)
   /\ kmax srv + tp_tau P + tp_d P <= 5 * TICKS      (* client: DROPPED when now > last_recv + 5 s *)
   /\ tp_d P <= (HALF - 1) * (kmax cli + 1) /\ tp_d P <= (HALF - 1) * (kmax srv + 1).
@@ -218,3 +218,55 @@ Definition cadence_ok (G v0 clk : Z) (w : wdir) : Prop :=
 Definition ka_dgram (k : Z) (dg : dgram) : Prop :=
   d_body dg = Sealed k (d_hdr dg) [] /\ h_type (d_hdr dg) = KEEP_ALIVE /\ h_count (d_hdr dg) = 0
   /\ h_len (d_hdr dg) = 0.
+
+(* ---------- executable versions of the hypotheses (Proofs/IdleP.v: each implies its Prop) ----------
+   used by the non-vacuity examples and by the correspondence unit, which reports for every
+   schedule the harness runs on the real endpoints whether it is inside the theorems' hypotheses *)
+Definition src_okb (key : option Z) (w : wdir) (d now : Z) (s : tsrc) : bool :=
+  match s with
+  | SNone => true
+  | SPeer i => match wd_lookup w i with Some (t, _) => now <=? t + d | None => false end
+  | SJunk dg _ => match open_dgram key dg with Ok _ => false | Err _ => true end
+  end.
+
+Definition on_timeb (w : wdir) (d now : Z) : bool := forallb (fun p => now <=? snd p + d) (wd_pend w).
+
+Definition tokb (P : tparams) (n : tnet) (v : tev) : bool :=
+  let now := tev_time v in
+  (t_clk n <=? now) && (now - t_tickC n <=? tp_tau P) && (now - t_tickS n <=? tp_tau P)
+  && on_timeb (t_cs n) (tp_d P) now && on_timeb (t_sc n) (tp_d P) now
+  && match v with
+     | TClient _ s => src_okb (c_key (t_cli n)) (t_sc n) (tp_d P) now s
+     | TSrvRecv _ s => src_okb (c_key (t_srv n)) (t_cs n) (tp_d P) now s
+     | TSrvSweep _ => true
+     end.
+
+Fixpoint tvalidb (e : env) (P : tparams) (n : tnet) (vs : list tev) : bool :=
+  match vs with
+  | [] => true
+  | v :: r => tokb P n v && tvalidb e P (tstep e P n v) r
+  end.
+
+Definition is_nil {A} (l : list A) : bool := match l with [] => true | _ => false end.
+
+Definition idle_epb (k : Z) (c : conn) : bool :=
+  status_eqb (c_status c) CONNECTED && match c_key c with Some k' => k' =? k | None => false end
+  && is_nil (c_outgoing c) && is_nil (c_pretry_msg c) && plain_pcbs (c_pcbs c)
+  && (c_hello_sent c =? 0) && (c_last_send c =? c_last_ka c).
+
+Definition in_syncb (x y : conn) : bool :=
+  (bf_nbits (c_bf_pkt y) =? 32) && (bf_cur (c_bf_pkt y) =? c_seq_send x)
+  && (0 <=? c_seq_send x) && (c_seq_send x <=? RING)
+  && (0 <=? bf_bits (c_bf_pkt y)) && (bf_bits (c_bf_pkt y) <? 2 ^ 32)
+  && (negb (c_seq_send x =? 0) || (bf_bits (c_bf_pkt y) =? 0)).
+
+Definition heardb (x y : conn) (t0 : Z) : bool :=
+  (c_last_ka x <=? c_last_recv y) && (t0 - kmax x <=? c_last_recv y) && (c_last_recv y <=? t0) && (c_last_ka x <=? t0).
+
+Definition establishedb (k t0 : Z) (cli srv : conn) : bool :=
+  idle_epb k cli && idle_epb k srv && in_syncb cli srv && in_syncb srv cli && heardb cli srv t0 && heardb srv cli t0.
+
+Definition params_okb (P : tparams) (cli srv : conn) : bool :=
+  (0 <=? tp_d P) && (0 <=? tp_tau P) && (0 <=? kmax cli) && (0 <=? kmax srv)
+  && (kmax cli + tp_tau P + tp_d P <? tp_T P) && (kmax srv + tp_tau P + tp_d P <=? 5 * TICKS)
+  && (tp_d P <=? (HALF - 1) * (kmax cli + 1)) && (tp_d P <=? (HALF - 1) * (kmax srv + 1)).
